@@ -49,24 +49,24 @@ type c08Call struct {
 }
 
 type c08Result struct {
-	ID          string    `json:"id"`
-	Calls       []c08Call `json:"calls"`
-	FaultMs     float64   `json:"fault_ms"` // when the fault was injected (-1 = not reached)
+	ID          string         `json:"id"`
+	Calls       []c08Call      `json:"calls"`
+	FaultMs     float64        `json:"fault_ms"`       // when the fault was injected (-1 = not reached)
 	Seen        map[string]int `json:"seen,omitempty"` // how often the peer received the tools/call request of each call (by nonce)
-	Delivered   bool      `json:"delivered"`
-	DeliveredTo string    `json:"delivered_to"` // nonce of the call whose answer was cut ("*" = every call has its own)
-	Offset      int       `json:"offset"`
-	Total       int       `json:"total"`
-	CloseMs     float64   `json:"close_ms"`
-	CloseErr    string    `json:"close_err,omitempty"`
-	LibG        int       `json:"lib_goroutines"`
-	HTTPG       int       `json:"http_goroutines"`
-	FDs         int       `json:"fds"`
-	ChildLeft   bool      `json:"child_left"`
-	Pending     int       `json:"pending"`
-	After       string    `json:"after,omitempty"` // race-cancel: how a later call on the same client ended
-	Sample      string    `json:"sample,omitempty"`
-	Broken      string    `json:"broken,omitempty"`
+	Delivered   bool           `json:"delivered"`
+	DeliveredTo string         `json:"delivered_to"` // nonce of the call whose answer was cut ("*" = every call has its own)
+	Offset      int            `json:"offset"`
+	Total       int            `json:"total"`
+	CloseMs     float64        `json:"close_ms"`
+	CloseErr    string         `json:"close_err,omitempty"`
+	LibG        int            `json:"lib_goroutines"`
+	HTTPG       int            `json:"http_goroutines"`
+	FDs         int            `json:"fds"`
+	ChildLeft   bool           `json:"child_left"`
+	Pending     int            `json:"pending"`
+	After       string         `json:"after,omitempty"` // race-cancel: how a later call on the same client ended
+	Sample      string         `json:"sample,omitempty"`
+	Broken      string         `json:"broken,omitempty"`
 }
 
 func countFDs() int {
@@ -103,7 +103,7 @@ type c08Srv struct {
 	delivTo string
 	offset  int
 	total   int
-	calls   int // tools/call requests seen
+	calls   int            // tools/call requests seen
 	seen    map[string]int // tools/call requests seen, per nonce
 	callsCh chan struct{}
 	// legacy
